@@ -28,3 +28,16 @@ def uf_re_end(text, pos, regex) -> 'int':
 def spec_stable(cur, p, regex):
     """no non-empty match of regex at p (a falsy regex -- None or '' -- means: no pattern configured)"""
     return (not regex) or uf_re_end(cur.textstr, p, regex) < 0 or uf_re_end(cur.textstr, p, regex) == p
+
+
+def spec_is_name_char_b(cur, c):
+    return c.isalnum() or c in cur.buffer._namechar_set
+
+
+def spec_token_matches_b(cur, p, token):
+    """the same token rule for the Buffer cursor"""
+    return (len(token) > 0
+            and (cur.textstr[p:p + len(token)].lower() == token.lower() if cur.buffer.ignorecase
+                 else cur.textstr[p:p + len(token)] == token)
+            and not (cur.buffer.nameguard and p + len(token) < cur.len
+                     and spec_is_name_char_b(cur, cur.textstr[p + len(token)]) and uf_is_name(cur.buffer._namechar_set, token)))
